@@ -235,9 +235,12 @@ Theorem log_wf_load_dump : forall e clear s,
 Proof.
   intros e clear s WF SW.
   destruct (stored (sr (nd s))) as [[sn|len]|] eqn:ST.
-  - destruct (self_ver (nd s) <? s_ver sn) eqn:V.
-    + unfold load_dump. now rewrite ST, V.
-    + destruct (load_dump_installs e clear s sn ST ltac:(lia)) as (_ & _ & _ & _ & _ & _ & H). cbn zeta in H.
+  - destruct (clear && (eidx (s_e1 sn) <=? applied (nd s))) eqn:B.
+    { unfold load_dump. rewrite ST, B. exact WF. }
+    destruct (self_ver (nd s) <? s_ver sn) eqn:V.
+    + unfold load_dump. now rewrite ST, B, V.
+    + destruct (load_dump_installs e clear s sn ST ltac:(lia) ltac:(intros ->; cbn in B; lia))
+        as (_ & _ & _ & _ & _ & _ & H). cbn zeta in H.
       destruct H as [->|(a & b & r & -> & _ & _ & (pre & E))].
       * specialize (SW sn eq_refl). unfold snap_wf in SW. split; [discriminate|]. cbn. auto.
       * rewrite E in WF. eapply log_wf_suffix; eauto. discriminate.
@@ -349,8 +352,18 @@ Proof.
         apply Forall_app. split.
         * destruct first; [injection INC as <-; constructor|]. now apply IW.
         * constructor; auto; destruct b as [s0|]; cbn; auto.
-      + destruct (view_inv _ _ (view_ae_commit c None s7)) as (_ & _ & _ & _ & _ & _ & _ & _ & _ & X & _).
-        now rewrite X, L7. }
+      + destruct done.
+        * destruct (view_inv _ _ (view_ae_commit c None (load_dump e true s7))) as (_ & _ & _ & _ & _ & _ & _ & _ & _ & X & _).
+          rewrite X.
+          (* a complete snapshot that cannot be loaded leaves the log alone *)
+          assert (LL : log (nd (load_dump e true s7)) = log (nd s7)).
+          { cbn [andb] in DL. clear -DL. unfold load_dump, load_dump_ok in *.
+            destruct (stored (sr (nd s7))) as [[sn|]|]; auto. cbn [andb].
+            destruct (eidx (s_e1 sn) <=? applied (nd s7)); [reflexivity|].
+            cbn [negb andb] in DL. destruct (self_ver (nd s7) <? s_ver sn) eqn:V; [reflexivity|lia]. }
+          now rewrite LL, L7.
+        * destruct (view_inv _ _ (view_ae_commit c None s7)) as (_ & _ & _ & _ & _ & _ & _ & _ & _ & X & _).
+          now rewrite X, L7. }
   unfold on_message.
   destruct m as [t lli llt|t|t c prev es|t c prev lab off len en|t c p|c req|req okr a b|t next reset success];
     try apply AE_.
